@@ -52,6 +52,14 @@ CHECKS = {
          "property's own quantifier. The thorough tier adds an Apalache (SMT) proof of the order lemmas over unbounded integers.",
     technique="TLA+ spec (Events.tla) model-checked with TLC (+ Apalache over unbounded Int); every enumerated placement replayed into verif.interval / verif.util",
     ref="6/C07"),
+ "C05": dict(
+    text="Metrics.tla transcribes the textbook definition of 22 deterministic scores (and Aggregators.tla the 14 -agg statistics plus "
+         "quantile levels) as expression trees over exact rationals, with explicit undefined cases; TLC enumerates every obs/fcst vector "
+         "of length 0..3 over small integers (ties, constants, zeros, negatives, single pairs, missing on either side; length 4 and the "
+         "5-value alphabet in the thorough tier), checks PerfectAttains / NeverBetter / AggregatorConsistency exactly, and each expected "
+         "score is replayed into the real metric class (compute_from_obs_fcst) with every aggregator.",
+    technique="TLA+ spec (Metrics.tla, Aggregators.tla, Expr.tla) model-checked with TLC; expected scores emitted as exact expression trees and replayed into verif.metric",
+    ref="6/C05"),
  "C18": dict(
     text="DataImpl.tla models Data.get_scores as the code has it (heap of mutable arrays, per-input field cache handed out without "
          "copying, request cache, observation sharing by aliasing, in-place propagation and -obsrange); TLC checks that it refines "
